@@ -243,7 +243,7 @@ access(all) contract Inf {
         init(_ a: Int) { self.a = a }
     }
     access(all) resource R {
-        access(all) event ResourceDestroyed(uuid: UInt64 = self.uuid)
+        access(all) event ResourceDestroyed(uuid: UInt64 = self.uuid, a: Int = self.a, tag: String = "other")
         access(all) let a: Int
         init(_ a: Int) { self.a = a }
     }
@@ -673,6 +673,21 @@ var scenarios = []scenario{
 			{Kind: "script", Src: scnScript("import Ent from 0x9\n", "Int", `    let a = getAuthAccount<auth(Storage) &Account>(0x9)
     let r = a.storage.borrow<auth(Ent.Read) &Ent.Tree>(from: /storage/scnTree)!
     return r.leaf.get()`)},
+			// the mapped member through a reference with SEVERAL of the mapping's inputs ...
+			{Kind: "script", Src: scnScript("import Ent from 0x9\n", "Int", `    let a = getAuthAccount<auth(Storage) &Account>(0x9)
+    let r = a.storage.borrow<auth(Ent.Read, Ent.Write) &Ent.Tree>(from: /storage/scnTree)!
+    r.leaf.set(r.leaf.get() + 1)
+    let adm = a.storage.borrow<auth(Ent.Admin, Ent.Read) &Ent.Tree>(from: /storage/scnTree)!
+    adm.leaf.set(3)
+    return adm.leaf.get()`), Expect: []string{}},
+			// ... must not widen what a single input grants to a later program (whatever is cached by then)
+			{Kind: "script", Src: scnScript("import Ent from 0x9\n", "Int", `    let a = getAuthAccount<auth(Storage) &Account>(0x9)
+    let r = a.storage.borrow<auth(Ent.Read) &Ent.Tree>(from: /storage/scnTree)!
+    r.leaf.set(1)
+    return r.leaf.get()`), Fails: "CheckerError"},
+			{Kind: "script", Src: scnScript("import Ent from 0x9\n", "Int", `    let a = getAuthAccount<auth(Storage) &Account>(0x9)
+    let w = a.storage.borrow<auth(Ent.Write) &Ent.Tree>(from: /storage/scnTree)!
+    return w.leaf.get()`), Fails: "CheckerError"},
 		}
 	}},
 	{"attachments", func(r *Rng) []scnStep {
@@ -783,6 +798,18 @@ var scenarios = []scenario{
 			{Kind: "tx", Src: scnTx(other, `        let c <- s.storage.load<@Twin.R>(from: /storage/scnTwinR)
         destroy c`), Fails: "TypeMismatchError"},
 			{Kind: "script", Src: scnScript("import Twin from 0x9\n", "Int", "    let a = getAuthAccount<auth(Storage) &Account>(0x9)\n    return a.storage.copy<Twin.S>(from: /storage/scnTwinS)!.a + a.storage.borrow<&Twin.R>(from: /storage/scnTwinR)!.a"), Expect: []string{}},
+			// both same-named types in one execution (import alias): each resource is destroyed with its OWN type's event
+			{Kind: "tx", Src: scnTx(impW+"import Twin from 0x9\nimport Twin as TwinB from 0xa\n", `        let ra <- TwinB.mkR(2)
+        let r9 <- Twin.mkR(1)
+        destroy ra
+        destroy r9
+        let x9 <- Twin.mkR(3)
+        let xa <- TwinB.mkR(4)
+        log(x9.getType().identifier)
+        log(xa.getType().identifier)
+        log(x9.getType() == xa.getType())
+        let arr: @[AnyResource] <- [<- x9, <- xa, <- Twin.mkR(5)]
+        destroy arr`), Expect: []string{`"A.0000000000000009.Twin.R"`, `"A.000000000000000a.Twin.R"`, "false"}},
 		}
 	}},
 	{"inferred-types", func(r *Rng) []scnStep {
